@@ -1,6 +1,6 @@
 //go:build verif
 
-//verif:bounds C05: up to 2 ELF sections with symbolic address (aligned or not), size 1 byte..3 pages, all flag bits, symbolic page-aligned kernel offset, 0..2 early reserved pages, map failure at an arbitrary call; C06: every bit of the four page-table entries on the faulting path symbolic, arbitrary fault address inside one page with arbitrary contents (copy checked at 8 representative byte offsets), arbitrary error code, frame-allocation or temporary-mapping failure; zero-frame guard through Map, MapTemporary, PageDirectoryTable.Map, IdentityMapRegion with symbolic frame and flags
+//verif:bounds C05: up to 2 (thorough 3) ELF sections with symbolic address (aligned or not), size 1 byte..3 (thorough 5) pages, all flag bits, symbolic page-aligned kernel offset, 0..2 (thorough 0..3) early reserved pages, map failure at an arbitrary call; C06: every bit of the four page-table entries on the faulting path symbolic, arbitrary fault address inside one page with arbitrary contents (copy checked at 8 representative byte offsets), arbitrary error code, frame-allocation or temporary-mapping failure; zero-frame guard through Map, MapTemporary, PageDirectoryTable.Map, IdentityMapRegion with symbolic frame and flags
 //verif:assumes seam level (the repository's own test seams): ptePtrFn serves a 4-entry table (one entry per level of the walk), mapTemporaryFn/unmapFn/flushTLBEntryFn/switchPDTFn/activePDTFn/translateFn/visitElfSectionsFn and the frame allocator are harness functions; kfmt.Printf/Fprintf (panic message formatting) are stubbed while encoding
 //verif:override github.com/ProjectSerenity/firefly/kernel/kfmt.Printf vfNoPrintf
 //verif:override github.com/ProjectSerenity/firefly/kernel/kfmt.Fprintf vfNoFprintf
@@ -29,14 +29,15 @@ type vfSection struct {
 }
 
 func Verif_C05_sections_calls() {
-	ns := 1 + zzverif.Choice("sections", 2)
-	var secs [2]vfSection
+	ns := 1 + zzverif.Choice("sections", zzverif.Param("sections", 2, 3))
+	maxPages := uint64(zzverif.Param("secpages", 3, 5))
+	var secs [3]vfSection
 	offset := zzverif.Uintptr("kernelPageOffset")
 	zzverif.Assume(offset&(mm.PageSize-1) == 0)
 	for i := 0; i < ns; i++ {
 		secs[i] = vfSection{multiboot.ElfSectionFlag(zzverif.U32("secflags")), zzverif.Uintptr("secaddr"), zzverif.U64("secsize")}
-		zzverif.Assume(zzverif.And(secs[i].size >= 1, secs[i].size <= 3*4096))
-		zzverif.Assume(secs[i].addr <= ^uintptr(0)-4*4096) // the section does not wrap around the address space
+		zzverif.Assume(zzverif.And(secs[i].size >= 1, secs[i].size <= maxPages*4096))
+		zzverif.Assume(secs[i].addr <= ^uintptr(0)-6*4096) // the section does not wrap around the address space
 	}
 	visitElfSectionsFn = func(v multiboot.ElfSectionVisitor) {
 		for i := 0; i < ns; i++ {
@@ -46,9 +47,9 @@ func Verif_C05_sections_calls() {
 	root := mm.Frame(0x1234)
 	mm.SetFrameAllocator(func() (mm.Frame, *kernel.Error) { return root, nil })
 	activePDTFn = func() uintptr { return root.Address() } // the new root counts as active: PDT.Map maps directly
-	r := zzverif.Choice("reserved", 3)
+	r := zzverif.Choice("reserved", zzverif.Param("reserved", 3, 4))
 	earlyReserveLastUsed = tempMappingAddr - uintptr(r)*mm.PageSize
-	var transl [2]uintptr
+	var transl [3]uintptr
 	for i := 0; i < r; i++ {
 		transl[i] = zzverif.Uintptr("translated") &^ (mm.PageSize - 1)
 	}
@@ -58,7 +59,7 @@ func Verif_C05_sections_calls() {
 	}
 	failAt := zzverif.Int("failAt")
 	mapErr := &kernel.Error{Module: "verif", Message: "map failed"}
-	var calls [12]vfMapCall
+	var calls [24]vfMapCall
 	n := 0
 	mapFn = func(p mm.Page, f mm.Frame, fl PageTableEntryFlag) *kernel.Error {
 		if n < len(calls) {
@@ -78,7 +79,7 @@ func Verif_C05_sections_calls() {
 	err := setupPDTForKernel(offset)
 
 	// reference list of (page, frame, flags)
-	var exp [12]vfMapCall
+	var exp [24]vfMapCall
 	ne := 0
 	for i := 0; i < ns; i++ {
 		s := secs[i]
